@@ -274,15 +274,16 @@ Qed.
    Whether an error gets onto Errors() (the application reads it / there is buffer space) or is dropped is the
    [delivered] flag of IClaimError.  The member's state — hence every session-end cause, [winding], [mu], the
    enabledness of every step and Consume's return — does not depend on it. *)
-Definition undeliver (i : input) : input := match i with IClaimError p _ => IClaimError p false | _ => i end.
+Definition undeliver (i : input) : input :=
+  match i with IClaimError p _ => IClaimError p false | IPomError p _ => IPomError p false | _ => i end.
 Theorem errors_never_block cf :
-  (forall w p d, fst (step cf w (IClaimError p d)) = w) /\
+  (forall w p d, fst (step cf w (IClaimError p d)) = w /\ fst (step cf w (IPomError p d)) = w) /\
   (forall ins w, final cf w (map undeliver ins) = final cf w ins).
 Proof.
-  split; [intros; apply step_claimerr_state|].
+  split; [intros; split; [apply step_claimerr_state | apply step_pomerr_state]|].
   unfold final. induction ins as [|i r IH]; intros w; [reflexivity|]. cbn [map run].
   assert (H : fst (step cf w (undeliver i)) = fst (step cf w i)).
-  { destruct i; try reflexivity. cbn [undeliver]. now rewrite !step_claimerr_state. }
+  { destruct i; try reflexivity; cbn [undeliver]; [now rewrite !step_pomerr_state | now rewrite !step_claimerr_state]. }
   destruct (step cf w (undeliver i)) as [w1 e1], (step cf w i) as [w2 e2]. cbn in H. subst w2.
   specialize (IH w1). destruct (run cf w1 (map undeliver r)), (run cf w1 r). cbn in *. exact IH.
 Qed.
